@@ -32,7 +32,7 @@ FILE_ROUTES = ('file', 'file_len', 'file_off', 'file_off_len', 'handle', 'handle
 READ_OPS = ('len', 'bool', 'iter', 'getitem', 'getslice', 'add', 'radd', 'mul', 'rmul', 'invert', 'lshift', 'rshift', 'and', 'or', 'xor',
             'eq', 'ne', 'eq_lit', 'hash', 'contains', 'find', 'rfind', 'findall', 'count', 'all', 'any', 'startswith', 'endswith',
             'cut', 'split', 'join', 'tobytes', 'bytes', 'tobitarray', 'tofile', 'unpack', 'interp', 'str', 'pp', 'copy', 'to_cls',
-            'and_twin', 'add_twin', 'array_from', 'hash_eq', 'pack_bits', 'in_set', 'eq_fresh', 'eq_fresh', 'remake_same')
+            'and_twin', 'add_twin', 'array_from', 'hash_eq', 'pack_bits', 'in_set', 'eq_fresh', 'eq_fresh', 'remake_same', 'deepcopy', 'pickle')
 STREAM_OPS = ('read', 'peek', 'readlist', 'setpos', 'readto', 'bytealign', 'getpos')
 MUT_OPS = ('append', 'prepend', 'insert', 'overwrite', 'delslice', 'delitem', 'setitem', 'setslice', 'set', 'invert_ip', 'reverse', 'rol',
            'ror', 'byteswap', 'ilshift', 'irshift', 'imul', 'iand', 'ior', 'ixor', 'clear', 'replace', 'iadd', 'prop')
@@ -448,6 +448,11 @@ class ERoute(Engine):
             if st != 'ok':
                 return None
             return [x == y, y == x, x != y, y.bin == kernel.safe_bin(y)]
+        if op == 'deepcopy':
+            return copy.deepcopy(x)
+        if op == 'pickle':
+            import pickle
+            return pickle.loads(pickle.dumps(x, protocol=int(g('n', 0)) % 6 if isinstance(g('n', 0), int) else 2))
         if op == 'remake_same':
             # the same route over the same source once more: it builds what it built the first time, whatever has been done since to
             # the objects it built before (only asked while the source itself is untouched)
@@ -742,7 +747,7 @@ class ERoute(Engine):
         return kernel.simplify_generic(ev)
 
 
-DERIVING = ('copy', 'to_cls', 'getslice', 'add', 'radd', 'add_twin', 'mul', 'rmul', 'invert', 'lshift', 'rshift', 'and', 'or', 'xor', 'join',
+DERIVING = ('copy', 'deepcopy', 'pickle', 'to_cls', 'getslice', 'add', 'radd', 'add_twin', 'mul', 'rmul', 'invert', 'lshift', 'rshift', 'and', 'or', 'xor', 'join',
             'cut', 'split', 'pack_bits', 'read', 'peek', 'readto', 'unpack', 'interp')
 
 
